@@ -150,6 +150,38 @@ def mentions(node, text):
     return text in ast.unparse(node)
 
 
+def lookup_of(stmt):
+    """`matching_params = list(filter(lambda p, a=annotation: <test>, doc.params))` -> (is <test> exactly `p.arg_name == a`, source of
+    the lambda); None: another statement.  The documented entries that count for a parameter are those whose name EQUALS the parameter's
+    name: any other test (a normalised, stripped, case-folded, prefix … comparison) is reported as `paramLookupIsNameEquality = false`."""
+    if not (isinstance(stmt, ast.Assign) and len(stmt.targets) == 1 and ast.unparse(stmt.targets[0]) == 'matching_params'):
+        return None
+    v = stmt.value
+    if not (isinstance(v, ast.Call) and ast.unparse(v.func) == 'list' and len(v.args) == 1 and not v.keywords):
+        return None
+    f = v.args[0]
+    if not (isinstance(f, ast.Call) and ast.unparse(f.func) == 'filter' and len(f.args) == 2 and not f.keywords
+            and ast.unparse(f.args[1]) == 'doc.params' and isinstance(f.args[0], ast.Lambda)):
+        return None
+    lam = f.args[0]
+    a = lam.args
+    if a.vararg or a.kwarg or a.kwonlyargs or a.posonlyargs or not (1 <= len(a.args) <= 2):
+        return False, ast.unparse(lam)
+    p = a.args[0].arg
+    if len(a.args) == 2:
+        if len(a.defaults) != 1 or ast.unparse(a.defaults[0]) != 'annotation':
+            return False, ast.unparse(lam)
+        key = a.args[1].arg
+    else:
+        key = 'annotation'
+    if key == p:
+        return False, ast.unparse(lam)
+    b = lam.body
+    exact = (isinstance(b, ast.Compare) and len(b.ops) == 1 and isinstance(b.ops[0], ast.Eq)
+             and sorted((ast.unparse(b.left), ast.unparse(b.comparators[0]))) == sorted((f'{p}.arg_name', key)))
+    return exact, ast.unparse(lam).replace('-/', '- /').replace('\n', ' ')
+
+
 def gen_docstring(repo):
     out = [HEADER.format(rel=', '.join((F_PED, F_DOC, F_CLS))), PRELUDE]
 
@@ -328,17 +360,23 @@ def completeCountsAsExpected : Bool := {lean_bool(counts_ok)}
         if not seen_parse:
             raise Skip('_check_docstring: the Returns branch does not parse the documented type')
     match_test = match_exc = ptype_test = ptype_exc = None
+    lookup_exact, lookup_src = False, '(no such statement)'
     if par_b:
-        need = {'matching_params = list(filter(lambda p, a=annotation: p.arg_name == a, doc.params))': False,
+        FILTER = 'matching_params = list(filter(<lookup>, doc.params))'
+        need = {FILTER: False,
                 'docstring_param = matching_params[0]': False,
                 'actual_param_type = _parse_documented_type(type_=docstring_param.type_name, context=context, err=err)': False}
         for s in par_b[0][1]:
             ir = if_raise(s)
             u = ast.unparse(s)
+            lk = lookup_of(s)
+            if lk is not None:
+                u = FILTER
+                lookup_exact, lookup_src = lk
             if u in need:
                 need[u] = True
             elif ir and mentions(ir[0], 'matching_params'):
-                if not need['matching_params = list(filter(lambda p, a=annotation: p.arg_name == a, doc.params))'] or need['docstring_param = matching_params[0]']:
+                if not need[FILTER] or need['docstring_param = matching_params[0]']:
                     raise Skip('_check_docstring: the matching_params test is not between the filter and its use')
                 match_test, match_exc = ir
             elif ir and isinstance(ir[0], ast.Compare) and {n.id for n in ast.walk(ir[0]) if isinstance(n, ast.Name)} == {'actual_param_type', 'expected_type'}:
@@ -377,6 +415,10 @@ def excReturnType : String := {lean_str(rtype_exc or 'PedanticDocstringException
 def matchBad (numMatching : Nat) (typeNameIsNone : Bool) : Bool :=
   {cond(match_test, at)}
 def excMatch : String := {lean_str(match_exc or 'PedanticDocstringException')}
+/-- the entries that count for a parameter: `matching_params = list(filter(<lookup>, doc.params))` with the lookup
+    `{lookup_src}` — is it exactly "the documented name equals the parameter's name"
+    (the model's `p.name == n`)?  A comparison of normalised names (stars, underscores, case, blanks stripped or folded, prefixes) is not. -/
+def paramLookupIsNameEquality : Bool := {lean_bool(lookup_exact)}
 /-- `{d(ptype_test)}` -/
 def paramTypeBad (typesEqual : Bool) : Bool :=
   {cond(ptype_test, at)}
